@@ -215,11 +215,26 @@ def _run_path(res, cfg):
     for idx in np.ndindex(*ga.shape):
         atom = int(ids[idx])
         d = ga[idx] - true.get(atom, P.ZERO)
+        if smt.has_selection(d):
+            d = solver.resolve_selection(d)       # clamp / max / where whose outcome the interval bounds decide (e.g. r.clamp(min=c) with r >= bias > c)
         if first is None and ga[idx].t:
             first = ga[idx]
         if not d.is_zero():
             res.nontrivial = True
-        v, model = solver.decide(d, tau, label='dX%s' % (list(idx),), grid_bits=48)
+        if smt.has_selection(d):
+            # an undecided magnitude threshold is left in the backward pass: look for a witness by evaluation on small inputs, then
+            # let the solver decide with the defining constraints (its relaxation without them would admit spurious models)
+            solver.candidate_scales = (Fraction(1), Fraction(1, 2 ** 20), Fraction(1, 2 ** 30), Fraction(1, 2 ** 40))
+            for a in list(ids.reshape(-1)) + list(gids.reshape(-1)):
+                solver.var(int(a))
+            model = solver.guess(d, tau)
+            if model is not None:
+                st.queries += 1; st.sat += 1
+                v = 'sat'
+            else:
+                v, model = solver.decide(d, tau, with_defs=True, label='dX%s' % (list(idx),))
+        else:
+            v, model = solver.decide(d, tau, label='dX%s' % (list(idx),), grid_bits=48)
         if v == 'sat':
             sats.append((idx, model))
             if len(sats) >= 2:
@@ -256,8 +271,11 @@ def _run_path(res, cfg):
     return res
 
 
-def _fd_gap(cfg, xv, gv, h=1e-6):
+def _fd_gap(cfg, xv, gv, h=None):
     rt = symtorch.real_torch()
+    if h is None:
+        # step relative to the scale on which the magnitude is curved: the input itself or the bias
+        h = min(1e-6, 1e-4 * max(float(np.abs(xv).max()), float(cfg.get('magbias') or 0.0), 1e-30))
     xr = rt.tensor(xv, requires_grad=True)
     out = _run(symtorch.real(), cfg, xr)
     gr = rt.autograd.grad([out], [xr], [rt.tensor(gv)], allow_unused=True)[0]
